@@ -2,6 +2,7 @@
 C08 — Controllers move demand only in the documented direction and amount.
 -/
 import CobaldVerif.Lemmas.Controllers
+import CobaldVerif.Generated.Src
 import Mathlib.Tactic.Ring
 
 namespace Cobald.Props.C08
@@ -156,5 +157,24 @@ example : getRule [(0, some (5/2), 0), (5/2, some 10, 2), (10, some 100, 1), (10
 example : ([(10, 1), (5/2, 2), (100, 3)] : List (Rat × Nat)).map (·.1) |>.Nodup := by decide +kernel
 example : delta ⟨1/2, 1/2, 3⟩ 2 ⟨10, 7, 1/4, 1⟩ = -6 := by decide +kernel
 example : (⟨1/2, 1/2, 3⟩ : Linear).ok := by decide +kernel
+
+/-! ### the source's `regulate` methods
+
+`Generated/Src.lean` is re-emitted from the text of `controller/linear.py` and
+`controller/relative_supply.py` on every run. -/
+
+/-- `LinearController.regulate` as written in the source is the model's `linearStep` -/
+theorem gen_linear_eq (c : Linear) (interval : Rat) (p : Pool) :
+    Gen.linearRegulate p.util p.alloc p.demand c.low c.high c.rate interval = (linearStep c interval p).demand ∧
+    (linearStep c interval p).supply = p.supply ∧ (linearStep c interval p).util = p.util ∧
+    (linearStep c interval p).alloc = p.alloc := by
+  unfold Gen.linearRegulate linearStep
+  split <;> (try split) <;> simp
+
+/-- `RelativeSupplyController.regulate` as written in the source is the model's `relStep` -/
+theorem gen_relsupply_eq (c : RelSupply) (p : Pool) :
+    Gen.relSupplyRegulate p.util p.alloc p.supply p.demand c.low c.high c.lowScale c.highScale = (relStep c p).demand := by
+  unfold Gen.relSupplyRegulate relStep
+  split <;> (try split) <;> simp
 
 end Cobald.Props.C08
